@@ -144,6 +144,23 @@ func c02Scenario(c c02cfg) *Scenario {
 		w.S.SetWindow(false)
 		time.Sleep(2 * vI)
 		w.Do(ReqSpec{ID: "final", Host: "a.example.com", Path: "/"})
+		if !c.conflict && c.redeploys > 0 {
+			// the replaced containers are stopped once the deploys have returned (what kamal does next):
+			// nothing may still be routed to them
+			gone := append([]string{}, olds...)
+			for g := 0; g+1 < len(gens); g++ {
+				gone = append(gone, gens[g]...)
+			}
+			for _, n := range gone {
+				if t := w.Net.Target(n); t != nil {
+					t.RefuseRequests = true
+					w.Net.CloseConnsOf(n)
+				}
+			}
+			time.Sleep(time.Millisecond)
+			w.Do(ReqSpec{ID: "final-after-old-stopped", Host: "a.example.com", Path: "/"})
+			w.Do(ReqSpec{ID: "final-after-old-stopped-2", Host: "a.example.com", Path: "/other"})
+		}
 	}
 	cfgConflict := c.conflict
 	sc.Check = func(w *World) []Violation {
